@@ -110,3 +110,54 @@ fn c16_remove_attribute_removes_every_duplicate() {
     core::mem::forget(attrs);
     core::mem::forget(buffer);
 }
+
+/// C08: an attribute name accepted by the validator contains none of the bytes on which the tokenizer's
+/// `attribute_name_state` ends the name (the set is extracted from /repo's DSL at check time, so validator and
+/// tokenizer are compared with each other, not with a constant written here), is not empty, and is stored
+/// byte for byte (UTF-8); every rejected name contains such a byte or is empty (no over-rejection).
+// @verif props=C08,C15 fns=Attribute::name_from_string
+// @requires src/verif_kani_dsl_facts_gen.rs
+#[kani::proof]
+#[kani::stub(encoding_rs::Encoding::encode, model_encode_utf8)]
+#[kani::unwind(9)]
+fn c08_accepted_attribute_names_cannot_end_the_name_in_the_tokenizer() {
+    use crate::verif_kani_dsl_facts_gen::ATTRIBUTE_NAME_TERMINATORS as TERM;
+    const L: usize = 3; // @thorough 4
+    let raw: [u8; L] = kani::any();
+    let n: usize = kani::any();
+    kani::assume(n <= L);
+    let mut name = String::new();
+    let mut has_term = false;
+    let mut i = 0;
+    while i < n {
+        kani::assume(raw[i] < 0x80);
+        name.push(raw[i] as char);
+        let mut t = 0;
+        while t < TERM.len() {
+            if TERM[t] == raw[i] {
+                has_term = true;
+            }
+            t += 1;
+        }
+        i += 1;
+    }
+    assert!(TERM.len() >= 3 && TERM.len() <= 8);
+    match Attribute::name_from_string(name, encoding_rs::UTF_8) {
+        Ok(b) => {
+            assert!(!has_term, "[C08] an accepted attribute name contains no byte that ends a name in the tokenizer");
+            assert!(n > 0 && b.len() == n, "[C08] an accepted attribute name is non-empty and stored unchanged");
+            let mut k = 0;
+            while k < n {
+                assert!(b[k] == raw[k], "[C08] an accepted attribute name is stored unchanged");
+                k += 1;
+            }
+            core::mem::forget(b);
+        }
+        Err(e) => {
+            assert!(has_term || n == 0, "[C08] only names the tokenizer would split are rejected");
+            core::mem::forget(e);
+        }
+    }
+    kani::cover!(n == L && !has_term);
+    kani::cover!(n == L && has_term && raw[L - 1] == b'=');
+}
